@@ -193,7 +193,8 @@ fn run_dark<T: Fl>(ctx: &Ctx, g: &Graph<T>, total: &mut Collector) {
                                 }
                             }
                             let e = best / size;
-                            let t = tol::<T>(&ka, &kb);
+                            // f64: 1e-6 relative (measured on the unchanged tree: <= 2.4e-7, the 7-digit matrices)
+                            let t = if T::NAME == "f64" { 1.0e-6 } else { tol::<T>(&ka, &kb) };
                             if e <= t {
                                 c.ratio(&sub, e / t, || json!({"path": [g.nodes[a].name, g.nodes[b].name], "value": v64, "rel_err": e}));
                             } else {
